@@ -8,12 +8,12 @@ from common import sh2
 LEVEL = "proof"
 MANIFEST = {
     "technique": "Coq proof over a hand-written Gallina model of the box codec (header, container recursion, prefixed containers "
-                 "stsd/dref/sample entries, unknown boxes, 54 leaf box types incl. the esds descriptor tree and the uuid variants, the box loop of a file) + differential correspondence "
+                 "stsd/dref/sample entries, unknown boxes, 55 leaf box types incl. the esds descriptor tree, the uuid variants and sgpd with its entries, the box loop of a file) + differential correspondence "
                  "(extracted OCaml vs Go) + failing-input search on all registered box types whose mutant failures are labelled "
                  "by the model's proved-complete reasons",
     "level_text": "PROOF for the modelled universe (coq/c01/C01Theorems.v): header round trip both ways; for each of the leaf "
                   "kinds ftyp styp free skip mdat mfhd tfhd tfdt trun mvhd tkhd sidx trex mdhd hdlr stts stsc stsz stco co64 stss sdtp "
-                  "ctts elst saiz saio sbgp prft tenc frma vmhd smhd nmhd sthd mfro mehd tfra pssh url avcC btrt pasp colr clap schm cslg senc(raw) emsg elng kind hvcC subs esds(ES_Descriptor, DecoderConfig with nested descriptors, DecSpecificInfo, SLConfig, raw descriptors, UnknownData, size fields of any width) uuid(tfxd, tfrf, PIFF senc, unknown) "
+                  "ctts elst saiz saio sbgp prft tenc frma vmhd smhd nmhd sthd mfro mehd tfra pssh url avcC btrt pasp colr clap schm cslg senc(raw) emsg elng kind hvcC subs esds(ES_Descriptor, DecoderConfig with nested descriptors, DecSpecificInfo, SLConfig, raw descriptors, UnknownData, size fields of any width) uuid(tfxd, tfrf, PIFF senc, unknown) sgpd(seig roll rap alst unknown entries) "
                   "and the field prefixes of stsd, dref, VisualSampleEntry (avc1 avc3 hvc1 hev1 encv av01 vp08 vp09) and AudioSampleEntry "
                   "(mp4a enca ac-3 ec-3), everything the decoder accepts is reproduced from the decoded value plus the captured bytes "
                   "(C01_leaf_lossless_stage1..3 = one conjunct per kind, C01_leaf_table, C01_pre_table); C01_tree: every slice accepted by the model of DecodeBoxSR "
@@ -37,7 +37,7 @@ MANIFEST = {
     "level_note": "Trusted: Coq kernel, extraction, OCaml/Go glue, the hand transcription of the Go text into C01Model.v (tied to "
                   "/repo by the correspondence run on every check), the scanner and generators of the harness. The model follows "
                   "the SliceReader path; reader-path differences are counted, not modelled (C03). Not modelled: "
-                  "the per-sample structure of senc (kept raw, as DecodeSencSR does), sgpd, wvtt, stpp, meta/ilst (explored only); the File-level acceptance checks of "
+                  "the per-sample structure of senc (kept raw, as DecodeSencSR does), wvtt, stpp, meta/ilst (explored only); the File-level acceptance checks of "
                   "DecodeFileSR (moov stts chain, mdat placement, senc parsing). c01_dontcare.json: entries with source=model are "
                   "regenerated from the model (rsv_dc marks which captured chunks are ISO reserved) on every run; source=hand entries are "
                   "hand-written. Search failures of mutants made of modelled types are labelled with the model's reason (a failing mutant "
